@@ -553,5 +553,290 @@ theorem goal_binR {k : Nat} {wo : List Char} {ea eb : Ex} (h : WFL t cs (.bin k 
 
 end apps3
 
+/-! ### left-associative chains -/
+
+/-- first operand of the chain of level `k` that `e` is (or `e` itself) -/
+def chainHead (k : Nat) : Ex → Ex
+  | .bin k' a wo b => if k' = k then chainHead k a else .bin k' a wo b
+  | e => e
+
+/-- the further operands of the chain, front to back, each with the blanks before its operator -/
+def chainRest (k : Nat) : Ex → List (List Char × Ex)
+  | .bin k' a wo b => if k' = k then chainRest k a ++ [(wo, b)] else []
+  | _ => []
+
+/-- spelling of the further operands -/
+def restR (t : Table) (op : List Char) : List (List Char × Ex) → List Char
+  | [] => []
+  | x :: r => x.1 ++ (op ++ (lead x.2 ++ (renderB t x.2 ++ restR t op r)))
+
+/-- their tokens in the flat group -/
+def restN (t : Table) (op : List Char) : List (List Char × Ex) → List Tok
+  | [] => []
+  | x :: r => .s op :: nest t x.2 :: restN t op r
+
+theorem restR_append (t : Table) (op : List Char) (r1 r2 : List (List Char × Ex)) :
+    restR t op (r1 ++ r2) = restR t op r1 ++ restR t op r2 := by
+  induction r1 with
+  | nil => rfl
+  | cons x r ih => simp [restR, ih, List.append_assoc]
+
+theorem restN_append (t : Table) (op : List Char) (r1 r2 : List (List Char × Ex)) :
+    restN t op (r1 ++ r2) = restN t op r1 ++ restN t op r2 := by
+  induction r1 with
+  | nil => rfl
+  | cons x r ih => simp [restN, ih]
+
+theorem chain_low {k : Nat} : ∀ e : Ex, e.lvl < k → chainHead k e = e ∧ chainRest k e = [] := by
+  intro e h
+  cases e with
+  | bin k' a wo b =>
+    simp only [Ex.lvl] at h
+    have : k' ≠ k := by omega
+    simp [chainHead, chainRest, this]
+  | _ => simp [chainHead, chainRest]
+
+theorem chain_renderB (t : Table) (k : Nat) : ∀ e,
+    renderB t e = renderB t (chainHead k e) ++ restR t (opOf t k) (chainRest k e) := by
+  intro e
+  induction e with
+  | bin k' a wo b iha ihb =>
+    by_cases h : k' = k
+    · subst h
+      simp only [chainHead, chainRest, if_true, renderB, restR_append, restR]
+      rw [iha]
+      simp [render_eq, List.append_assoc]
+    · simp [chainHead, chainRest, h, restR]
+  | _ => simp [chainHead, chainRest, restR]
+
+theorem chain_lead (k : Nat) : ∀ e, lead e = lead (chainHead k e) := by
+  intro e
+  induction e with
+  | bin k' a wo b iha ihb =>
+    by_cases h : k' = k
+    · subst h; simp only [chainHead, if_true, lead]; exact iha
+    · simp [chainHead, h]
+  | _ => simp [chainHead]
+
+/-- the documented nesting of a left-associative chain: one flat group -/
+theorem chain_nest (t : Table) (k : Nat) (hr : rightOf t k = false) : ∀ (a : Ex) (wo : List Char) (b : Ex),
+    nest t (.bin k a wo b)
+      = .g (nest t (chainHead k a) :: restN t (opOf t k) (chainRest k a ++ [(wo, b)])) := by
+  intro a
+  induction a with
+  | bin k' a' w' b' iha ihb =>
+    intro wo b
+    by_cases h : k' = k
+    · subst h
+      conv => lhs; unfold nest
+      simp only [hr, Bool.false_eq_true, if_false]
+      rw [iha w' b']
+      simp [chainHead, chainRest, restN_append, restN]
+    · conv => lhs; unfold nest
+      simp only [hr, Bool.false_eq_true, if_false]
+      simp only [chainHead, chainRest, h, if_false, List.nil_append, restN]
+      split
+      · simp_all
+      · rfl
+  | _ => intro wo b; simp [nest, hr, chainHead, chainRest, restN]
+
+/-- an operand of a chain of level `k`: a tree of a tighter level that level `k-1` parses -/
+def OperandOK (t : Table) (cs s : List Char) (k : Nat) (x : Ex) : Prop :=
+  WFL t cs x ∧ x.lvl < k ∧ Goal t cs s x (k - 1)
+
+def ChainOK (t : Table) (cs s : List Char) (k : Nat) (h : Ex) (rest : List (List Char × Ex)) : Prop :=
+  OperandOK t cs s k h ∧ ∀ x ∈ rest, White t.white x.1 ∧ OperandOK t cs s k x.2
+
+section binL
+variable {t : Table} {cs : List Char} {re : Bool} (hT : ClassTL t cs re) (s : List Char)
+include hT
+
+/-- inside a chain of level `k`, an operand is followed by nothing that level `k-1` could continue with -/
+theorem follow_rest {k : Nat} {lv : Level} (hK : 1 ≤ k) (hlv : t.levels[k - 1]? = some lv)
+    {p : Nat} {rest : List (List Char × Ex)} {suf : List Char}
+    (hs : s.drop p = restR t lv.op1 rest ++ suf) (hw : ∀ x ∈ rest, White t.white x.1)
+    (hf : Follow t cs s k (p + (restR t lv.op1 rest).length)) : Follow t cs s (k - 1) p := by
+  cases rest with
+  | nil => simpa [restR] using hf.mono (k' := k - 1) (by omega)
+  | cons x r =>
+    have hop := hT.opOk lv (lv_mem hlv)
+    obtain ⟨oc, or', hor⟩ := List.exists_cons_of_ne_nil hop.1
+    have hoc := hop.2 oc (by simp [hor])
+    have hwx := hw x (by simp)
+    have hs0 : s.drop p = x.1 ++ (lv.op1 ++ (lead x.2 ++ (renderB t x.2 ++ (restR t lv.op1 r ++ suf)))) := by
+      rw [hs]; simp [restR, List.append_assoc]
+    have hpa : skipWhite t.white s p = p + x.1.length :=
+      skipWhite_eq hs0 hwx (by intro d hd; rw [hor] at hd; simp at hd; subst hd; exact hoc.1)
+    constructor
+    · exact next_not_cs hs0 hor hoc.2 (white_not_cs hT hwx)
+    · intro j lvj hj1 hjk hlvj _
+      rw [hpa, drop_add hs0]
+      exact not_prefix_append _ (hT.opsInc _ _ _ _ hlvj hlv (by omega)) (hT.opsInc _ _ _ _ hlv hlvj (by omega))
+
+/-- a chain `h op x1 op … ` of a LEFT-associative binary level `k` at that level: the `_FB` lookahead succeeds on
+    `h op x1`, then `Group(lastExpr + (opExpr + lastExpr)[1, ...])` collects the whole chain into ONE flat group; the
+    repetition stops where the operator literal does not match -/
+theorem chain_parse {k : Nat} {lv : Level} (hK : 1 ≤ k) (hlv : t.levels[k - 1]? = some lv)
+    (ha : lv.arity = 2) (hr : lv.right = false) {h : Ex} {x1 : List Char × Ex} {r : List (List Char × Ex)}
+    (hch : ChainOK t cs s k h (x1 :: r)) :
+    ∀ q suf, s.drop q = renderB t h ++ (restR t lv.op1 (x1 :: r) ++ suf) → skipWhite t.white s q = q →
+      Follow t cs s k (q + (renderB t h).length + (restR t lv.op1 (x1 :: r)).length) →
+      ∀ a c loc, preOf t.white s c true loc = q →
+        Holds t s (E k) loc a c (.ok (q + (renderB t h).length + (restR t lv.op1 (x1 :: r)).length)
+          [.g (nest t h :: restN t lv.op1 (x1 :: r))]) := by
+  intro q suf hs hq hf a c loc hloc
+  have hKn : k ≤ t.levels.length := by
+    have := (List.getElem?_eq_some_iff.mp hlv).1; omega
+  have hkind := hT.kinds lv (lv_mem hlv)
+  have hop := hT.opOk lv (lv_mem hlv)
+  obtain ⟨oc, or', hor⟩ := List.exists_cons_of_ne_nil hop.1
+  have hoc := hop.2 oc (by simp [hor])
+  have hfbF : ∀ j, j < 14 → j ≠ 3 → (fbIds t).elem (E k + j) = false := by
+    intro j hj h3; rw [fb_level t hK hKn hj]; simp [h3]
+  have hfbT : (fbIds t).elem (E k + 3) = true := by rw [fb_level t hK hKn (by omega)]; simp
+  have g0 : (infixGrammar t)[E k + 0]? = some (mkNode t.white (.forward (some (E k + 1))) true true) := by
+    rw [gram_level t hK hlv (by omega)]; simp [levelNodes]
+  have g1 : (infixGrammar t)[E k + 1]? = some (mkNode t.white (.matchFirst ((E k + 2) :: tailOf t k)) true false) := by
+    rw [gram_level t hK hlv (by omega)]; simp [levelNodes]
+  have g2 : (infixGrammar t)[E k + 2]? = some (mkNode t.white (.and [E k + 3, E k + 4]) true true) := by
+    rw [gram_level t hK hlv (by omega)]; simp [levelNodes, hkind.1, mkNode]
+  have g3 : (infixGrammar t)[E k + 3]? = some (mkNode t.white (.followedBy (E k + 5)) true true) := by
+    rw [gram_level t hK hlv (by omega)]; simp [levelNodes]
+  have g4 : (infixGrammar t)[E k + 4]? = some (mkNode t.white (.group (E k + 6)) true true) := by
+    rw [gram_level t hK hlv (by omega)]; simp [levelNodes]
+  have g5 : (infixGrammar t)[E k + 5]? = some (mkNode t.white (.and [E (k - 1), E k + 7, E (k - 1)]) true true) := by
+    rw [gram_level t hK hlv (by omega)]; simp [levelNodes, ha, hr]
+  have g6 : (infixGrammar t)[E k + 6]? = some (mkNode t.white (.and [E (k - 1), E k + 9]) true true) := by
+    rw [gram_level t hK hlv (by omega)]; simp [levelNodes, ha, hr]
+  have g7 : (infixGrammar t)[E k + 7]? = some (mkNode t.white (litKind lv.op1) false true) := by
+    rw [gram_level t hK hlv (by omega)]; simp [levelNodes]
+  have g9 : (infixGrammar t)[E k + 9]? = some (mkNode t.white (.many (E k + 10) none true) true true) := by
+    rw [gram_level t hK hlv (by omega)]; simp [levelNodes, ha, hr]
+  have g10 : (infixGrammar t)[E k + 10]? = some (mkNode t.white (.and [E k + 7, E (k - 1)]) true true) := by
+    rw [gram_level t hK hlv (by omega)]; simp [levelNodes, ha, hr]
+  -- the operator and the operand after it, wherever they stand in the chain
+  have piece : ∀ (p : Nat) (x : List Char × Ex) (suf' : List Char),
+      s.drop p = x.1 ++ (lv.op1 ++ (lead x.2 ++ (renderB t x.2 ++ suf'))) →
+      White t.white x.1 → OperandOK t cs s k x.2 →
+      Follow t cs s (k - 1) (p + x.1.length + lv.op1.length + (lead x.2).length + (renderB t x.2).length) →
+      (∀ a' c' loc', preOf t.white s c' true loc' = p + x.1.length →
+        Holds t s (E k + 7) loc' a' c' (.ok (p + x.1.length + lv.op1.length) [.s lv.op1])) ∧
+      (∀ a', Holds t s (E (k - 1)) (p + x.1.length + lv.op1.length) a' true
+        (.ok (p + x.1.length + lv.op1.length + (lead x.2).length + (renderB t x.2).length) [nest t x.2])) ∧
+      skipWhite t.white s p = p + x.1.length ∧
+      skipWhite t.white s (p + x.1.length) = p + x.1.length ∧
+      p + x.1.length + lv.op1.length + (lead x.2).length + (renderB t x.2).length ≤ s.length := by
+    intro p x suf' hs0 hwx hx hfx
+    have h1 := drop_add hs0
+    have h2 := drop_add h1
+    have h3 := drop_add h2
+    have hpa : skipWhite t.white s p = p + x.1.length :=
+      skipWhite_eq hs0 hwx (by intro d hd; rw [hor] at hd; simp at hd; subst hd; exact hoc.1)
+    have hqo : skipWhite t.white s (p + x.1.length) = p + x.1.length := by
+      have := skipWhite_eq (W := t.white) (ws := []) (x := lv.op1 ++ (lead x.2 ++ (renderB t x.2 ++ suf'))) (by simpa using h1)
+        (by simp) (by intro d hd; rw [hor] at hd; simp at hd; subst hd; exact hoc.1)
+      simpa using this
+    have hq1 := skip_lead hT s hx.1 h2
+    have hq2 := skip_at_body hT s hx.1 h3
+    refine ⟨?_, ?_, hpa, hqo, ?_⟩
+    · intro a' c' loc' hl'
+      exact H_lit_ok t s (hfbF 7 (by omega) (by omega)) g7 hl' hop.1 h1
+    · intro a'
+      exact hx.2.2 _ _ h3 hq2 hfx a' true _ (by rw [preOf_true, hq1])
+    · obtain ⟨c0, r0, hr0, _⟩ := renderB_head hT x.2 hx.1
+      have := len_le_of_drop h3 (by rw [hr0]; simp)
+      omega
+  -- one turn of the repetition
+  have turn : ∀ (p : Nat) (x : List Char × Ex) (suf' : List Char),
+      s.drop p = x.1 ++ (lv.op1 ++ (lead x.2 ++ (renderB t x.2 ++ suf'))) →
+      White t.white x.1 → OperandOK t cs s k x.2 →
+      Follow t cs s (k - 1) (p + x.1.length + lv.op1.length + (lead x.2).length + (renderB t x.2).length) →
+      ∀ a' loc', skipWhite t.white s loc' = p + x.1.length →
+        Holds t s (E k + 10) loc' a' true
+          (.ok (p + x.1.length + lv.op1.length + (lead x.2).length + (renderB t x.2).length) ([.s lv.op1] ++ [nest t x.2])) := by
+    intro p x suf' hs0 hwx hx hfx a' loc' hl'
+    obtain ⟨hOp, hB, _, _, _⟩ := piece p x suf' hs0 hwx hx hfx
+    exact H_and t s (hfbF 10 (by omega) (by omega)) g10 (hns hT)
+      (hOp a' false _ (by rw [preOf_false, preOf_true, hl']))
+      (HRest.cons_ok t s (hB a') (HRest.nil t s _ _ _)) (Or.inl ⟨_, _, rfl⟩)
+  -- the loop over the rest of the chain
+  have loop : ∀ (r : List (List Char × Ex)) (p : Nat) (acc : List Tok) (suf' : List Char) (a' : Bool),
+      s.drop p = restR t lv.op1 r ++ suf' →
+      (∀ x ∈ r, White t.white x.1 ∧ OperandOK t cs s k x.2) →
+      Follow t cs s k (p + (restR t lv.op1 r).length) →
+      HLoop t s (mkNode t.white (.many (E k + 10) none true) true true) a' (E k + 10) p acc
+        (.ok (p + (restR t lv.op1 r).length) (acc ++ restN t lv.op1 r)) := by
+    intro r
+    induction r with
+    | nil =>
+      intro p acc suf' a' hsr _ hfr
+      simp only [restR, restN, List.length_nil, Nat.add_zero, List.append_nil] at hfr ⊢
+      obtain ⟨lf, hfail⟩ := H_lit_fail t s (a := a') (c := false) (loc := skipWhite t.white s p)
+        (hfbF 7 (by omega) (by omega)) g7 (preOf_false _ _ _) hop.1 (hfr.2 k lv hK (Nat.le_refl _) hlv ha)
+      exact HLoop.stop t s _ (by simp [mkNode])
+        (H_and_fail0 t s (hfbF 10 (by omega) (by omega)) g10 (hns hT) (by rw [preOf_true]; exact hfail))
+    | cons x r ih =>
+      intro p acc suf' a' hsr hxr hfr
+      have hs0 : s.drop p = x.1 ++ (lv.op1 ++ (lead x.2 ++ (renderB t x.2 ++ (restR t lv.op1 r ++ suf')))) := by
+        rw [hsr]; simp [restR, List.append_assoc]
+      have h4 := drop_add (drop_add (drop_add (drop_add hs0)))
+      have hlen : p + (restR t lv.op1 (x :: r)).length
+          = p + x.1.length + lv.op1.length + (lead x.2).length + (renderB t x.2).length + (restR t lv.op1 r).length := by
+        simp [restR, List.length_append]; omega
+      rw [hlen] at hfr ⊢
+      have hxr' : ∀ y ∈ r, White t.white y.1 ∧ OperandOK t cs s k y.2 := fun y hy => hxr y (by simp [hy])
+      have hfx := follow_rest hT s hK hlv h4 (fun y hy => (hxr' y hy).1) hfr
+      have hx := hxr x (by simp)
+      obtain ⟨_, _, hpa, _, hle⟩ := piece p x _ hs0 hx.1 hx.2 hfx
+      have ht := turn p x _ hs0 hx.1 hx.2 hfx a' p hpa
+      have hpos : 0 < lv.op1.length := List.length_pos_iff.mpr hop.1
+      have := ih _ (acc ++ ([.s lv.op1] ++ [nest t x.2])) suf' a' h4 hxr' hfr
+      have e : acc ++ ([Tok.s lv.op1] ++ [nest t x.2]) ++ restN t lv.op1 r = acc ++ restN t lv.op1 (x :: r) := by
+        simp [restN]
+      rw [e] at this
+      exact HLoop.step t s (by simp [mkNode]) ht (by omega) hle this
+  -- the chain
+  have hs0 : s.drop q = renderB t h ++ (x1.1 ++ (lv.op1 ++ (lead x1.2 ++ (renderB t x1.2 ++ (restR t lv.op1 r ++ suf))))) := by
+    rw [hs]; simp [restR, List.append_assoc]
+  have h1 := drop_add hs0
+  have h5 := drop_add (drop_add (drop_add (drop_add h1)))
+  have hlen : q + (renderB t h).length + (restR t lv.op1 (x1 :: r)).length
+      = q + (renderB t h).length + x1.1.length + lv.op1.length + (lead x1.2).length + (renderB t x1.2).length
+        + (restR t lv.op1 r).length := by
+    simp [restR, List.length_append]; omega
+  have hx1 := hch.2 x1 (by simp)
+  have hxr : ∀ y ∈ r, White t.white y.1 ∧ OperandOK t cs s k y.2 := fun y hy => hch.2 y (by simp [hy])
+  have hfolH : Follow t cs s (k - 1) (q + (renderB t h).length) :=
+    follow_rest hT s hK hlv (rest := x1 :: r) (suf := suf) (by rw [h1]; simp [restR, List.append_assoc])
+      (fun y hy => (hch.2 y hy).1) hf
+  rw [hlen] at hf ⊢
+  have hfol1 := follow_rest hT s hK hlv h5 (fun y hy => (hxr y hy).1) hf
+  obtain ⟨hOp, hB, hpa, hqo, hle⟩ := piece _ x1 _ h1 hx1.1 hx1.2 hfol1
+  have hA : ∀ a', Holds t s (E (k - 1)) q a' false (.ok (q + (renderB t h).length) [nest t h]) :=
+    fun a' => hch.1.2.2 q _ hs0 hq hfolH a' false q (preOf_false _ _ _)
+  have hbody : Holds t s (E k + 5) q false true
+      (.ok (q + (renderB t h).length + x1.1.length + lv.op1.length + (lead x1.2).length + (renderB t x1.2).length)
+        ([nest t h] ++ [.s lv.op1] ++ [nest t x1.2])) :=
+    H_and t s (hfbF 5 (by omega) (by omega)) g5 (hns hT) (by rw [preOf_true, hq]; exact hA false)
+      (HRest.cons_ok t s (hOp false true _ (by rw [preOf_true, hpa]))
+        (HRest.cons_ok t s (hB false) (HRest.nil t s _ _ _))) (Or.inl ⟨_, _, rfl⟩)
+  have hfb : Holds t s (E k + 3) q a false (.ok q []) := by
+    have := H_fb_ok t s (a := a) (c := false) (loc := q) hfbT g3 (by rw [preOf_false]; exact hbody)
+    simpa [preOf_false] using this
+  have hturn := turn _ x1 _ h1 hx1.1 hx1.2 hfol1 a _ hqo
+  have hloop := loop r _ ([.s lv.op1] ++ [nest t x1.2]) suf a h5 hxr hf
+  have hmany : Holds t s (E k + 9) (q + (renderB t h).length) a true _ :=
+    H_many t s (hfbF 9 (by omega) (by omega)) g9 (by rw [preOf_true, hpa]; exact hturn) hle hloop
+  have hgb := H_and t s (a := a) (c := false) (loc := q) (hfbF 6 (by omega) (by omega)) g6 (hns hT)
+      (by rw [preOf_false]; exact hA a) (HRest.cons_ok t s hmany (HRest.nil t s _ _ _)) (Or.inl ⟨_, _, rfl⟩)
+  have hgrp := H_group_ok t s (a := a) (c := true) (loc := q) (hfbF 4 (by omega) (by omega)) g4 (by rw [preOf_true, hq]; exact hgb)
+  have hm := H_and t s (a := a) (c := true) (loc := q) (hfbF 2 (by omega) (by omega)) g2 (hns hT) (by rw [preOf_true, hq]; exact hfb)
+      (HRest.cons_ok t s hgrp (HRest.nil t s _ _ _)) (Or.inl ⟨_, _, rfl⟩)
+  have hmf := H_mf_ok t s (a := a) (c := false) (loc := q) (hfbF 1 (by omega) (by omega)) g1 (HMf.head t s _ hm)
+  have := H_forward_ok t s (a := a) (c := c) (loc := loc) (hfbF 0 (by omega) (by omega)) g0 (by rw [hloc]; exact hmf)
+  simpa [restN] using this
+
+end binL
+
 end Left
 end PP.Infix
